@@ -35,7 +35,7 @@ const c06Block = 10
 func (c06) CaseTimeoutSec() int { return 30 }
 
 func (c06) Rule() string {
-	return "query texts: grammar-generated valid statements of every kind; every kind of single-token deletion / duplication / replacement and random single-byte edits of them; a hand-written hostile corpus (self- and mutually-referential aliases, zero-argument calls of every function, out-of-range substr/index arguments, negative numbers via 0 - n, huge/empty literals, unterminated quotes, parentheses nested to 4 KB, long queries with late errors, leading/trailing blanks); each over stores {empty, tiny, non-numeric, mixed-type JSON, binary/non-UTF-8, extreme numbers, wide} in row and batch mode; every returned error is bound to the query and rendered with paddings 0, 7 and 20. Non-trivial: the text is not rejected by the first token check (it reaches the expression parser); distinct by (query text, store family, mode) hash."
+	return "query texts: grammar-generated valid statements of every kind; every kind of single-token deletion / duplication / replacement and random single-byte edits of them; a hand-written hostile corpus (self- and mutually-referential aliases, zero-argument calls of every function, out-of-range substr/index arguments, negative numbers via 0 - n, huge/empty literals, unterminated quotes, parentheses nested to 4 KB, long queries with late errors, leading/trailing blanks); the same monitors also run under go's native coverage-guided fuzzing engine (harness/fuzzq; seeded with the hostile corpus and 300 generated statements; a fixed number of executions; every crasher re-run alone in a fresh process before it counts); each over stores {empty, tiny, non-numeric, mixed-type JSON, binary/non-UTF-8, extreme numbers, wide} in row and batch mode; every returned error is bound to the query and rendered with paddings 0, 7 and 20. Non-trivial: the text is not rejected by the first token check (it reaches the expression parser); distinct by (query text, store family, mode) hash."
 }
 
 func (c06) Assumptions() []string {
@@ -50,6 +50,8 @@ func (c06) Gates(tier string, m map[string]int64) []rt.Gate {
 		rt.GateMin("errors rendered after BindQuery", m, "rendered", 1000),
 		rt.GateMin("hostile corpus entries run", m, "hostile_run", int64(len(c06Hostile))),
 		rt.GateMin("mutated statements run", m, "mutants_run", 1000),
+		rt.GateMin("coverage-guided stage: executions under the monitors", m, "fuzz_execs", 100000),
+		rt.GateMin("coverage-guided stage: corpus entries kept for reaching new code", m, "fuzz_corpus_entries", 300),
 	}
 }
 
